@@ -10,6 +10,7 @@ import pandas
 import scipy.sparse as spsparse
 from interface_meta import override
 
+from formulaic.materializers.types import FactorValues
 from formulaic.utils.cast import as_columns
 from formulaic.utils.null_handling import drop_rows as drop_nulls
 
@@ -74,9 +75,9 @@ class PandasMaterializer(FormulaMaterializer):
         if drop_rows:
             values = drop_nulls(values, indices=drop_rows)
         if spec.output == "sparse":
-            return spsparse.csc_matrix(
-                numpy.array(values).reshape((values.shape[0], 1))
-            )
+            if isinstance(values, FactorValues):  # numpy does not see through the proxy
+                values = values.__wrapped__
+            return spsparse.csc_matrix(numpy.array(values).reshape((-1, 1)))
         return values
 
     @override
